@@ -182,8 +182,9 @@ CLAIMS = {
             '(C03_nothing_reaches_the_loop) - and the process is never left between states: between any two events no transition is under way, the failure bypass '
             'is not armed, closed => terminated, a live process has a pending future, an armed interrupt action is pending (C03_never_half_transitioned); and '
             '(Life/LifeExc.v, C03_fault_ends_excepted_every_run) for a fault in any of the 14 life-cycle hooks run by transitions, at every point between two '
-            'events: once the fault has fired the state is EXCEPTED with EXACTLY the injected exception - the transition in which it fired was completed to '
-            'EXCEPTED before the enclosing operation returned and nothing afterwards changes that. The proof '
+            'events: once the fault has fired the state is EXCEPTED with EXACTLY the injected exception, the future raises it and the process is closed (also '
+            'when the failing hook was on_terminated / on_close of a FINISHED or KILLED state already entered) - the transition in which it fired was '
+            'completed to EXCEPTED before the enclosing operation returned and nothing afterwards changes that. The proof '
             'tracks the one-shot fault: an operation called with a legal target fails only by firing it, the second transition (to EXCEPTED, exit phase skipped) '
             'then cannot fail, and the targets computed by steps ARE legal (invariant tying the program counter of a suspended step to the state label). '
             'Additionally, by symbolic execution on EVERY world in which the fault is armed (whatever the occurrence '
